@@ -69,7 +69,6 @@ pub fn update_position_reply(
     )?;
 
     // define variables that differ across increase and decrease scenario
-    let swap_margin: Uint128;
     let margin_delta: Integer;
     let new_direction: Direction;
     let new_notional: Uint128;
@@ -77,7 +76,7 @@ pub fn update_position_reply(
     // calculate margin needed given swap
     match reply_id {
         INCREASE_POSITION_REPLY_ID => {
-            swap_margin = swap
+            let swap_margin = swap
                 .open_notional
                 .checked_mul(config.decimals)?
                 .checked_div(swap.leverage)?;
@@ -92,8 +91,6 @@ pub fn update_position_reply(
         }
         // DECREASE_POSITION_REPLY
         _ => {
-            swap_margin = Uint128::zero();
-
             // the vAMM rounds the base amount of a reducing trade against the trader; when the order is
             // within a unit of the whole position's value that can exceed the position, which would flip
             // its sign while it keeps its direction
